@@ -16,7 +16,10 @@ pub struct C17;
 
 #[derive(Clone, Copy, Debug)]
 enum Op {
+    /// update, then one last()
     D(f64),
+    /// update only (silent delivery)
+    U(f64),
     O(u8),
 }
 
@@ -31,6 +34,7 @@ struct Rep {
 
 enum Job {
     Update(Dyn<f64>, f64),
+    UpdateOnly(Dyn<f64>, f64),
     Last(Dyn<f64>, u8),
     Clone(Dyn<f64>),
     Drop(Dyn<f64>),
@@ -47,6 +51,10 @@ fn do_job(j: Job) -> Option<Done> {
     Some(match j {
         Job::Update(mut v, x) => {
             let r = try_update(&mut v, x).and_then(|_| try_last(&v));
+            Done::Update(v, r)
+        }
+        Job::UpdateOnly(mut v, x) => {
+            let r = try_update(&mut v, x).map(|_| None);
             Done::Update(v, r)
         }
         Job::Last(v, k) => {
@@ -133,6 +141,11 @@ fn reference(spec: &Spec, ops: &[Op]) -> Result<Vec<Option<u64>>, PanicInfo> {
                 try_update(&mut v, x)?;
                 cur = try_last(&v)?.map(f64::to_bits);
                 out.push(cur);
+            }
+            Op::U(x) => {
+                // the canonical reference reads last() after every delivery even where the replica did not
+                try_update(&mut v, x)?;
+                cur = try_last(&v)?.map(f64::to_bits);
             }
             Op::O(k) => {
                 for _ in 0..k {
@@ -246,6 +259,8 @@ impl Prop for C17 {
         let p_drop = *r.pick(&[0.0, 0.005, 0.02]);
         let p_mig = *r.pick(&[0.0, 0.0, 0.02, 0.1]);
         let p_obs = *r.pick(&[0.05, 0.15, 0.4]);
+        // silent deliveries: update() without a following last(); the canonical reference reads after every one
+        let p_silent = *r.pick(&[0.0, 0.3, 0.7, 0.95]);
         let mut ev = vec![];
         for _ in 0..n_events {
             let live: Vec<usize> = (0..alive.len()).filter(|j| alive[*j]).collect();
@@ -279,7 +294,8 @@ impl Prop for C17 {
                 let f = &feeds[feed_of[j]];
                 let v = f[cursor[j] % f.len()];
                 cursor[j] += 1;
-                ev.push(Ev::D { r: j as u8, v, tag: 0 });
+                let tag = if r.chance(p_silent) { crate::scenario::SILENT } else { 0 };
+                ev.push(Ev::D { r: j as u8, v, tag });
             }
         }
         sc.trees = trees;
@@ -288,6 +304,9 @@ impl Prop for C17 {
         sc
     }
 
+    fn hermetic(&self) -> bool {
+        true
+    }
     fn post_batch(&self, seed: u64, total: u64, tier: Tier) -> Vec<Scenario> {
         let mut sc = Scenario::new("C17", "crossproc");
         let runs = total.min(if tier == Tier::Quick { 4_000 } else { 100_000 });
@@ -357,20 +376,26 @@ impl Prop for C17 {
                 continue;
             }
             match *e {
-                Ev::D { v, .. } => {
+                Ev::D { v, tag, .. } => {
                     let view = reps[r].view.take().unwrap();
                     let home = reps[r].home;
                     if home != 0 {
                         out.stats.hit("reach.op_on_helper_thread");
                     }
-                    match helpers.run(home, Job::Update(view, v)) {
+                    let silent = tag == crate::scenario::SILENT;
+                    match helpers.run(home, if silent { Job::UpdateOnly(view, v) } else { Job::Update(view, v) }) {
                         Done::Update(view, res) => {
                             reps[r].view = Some(view);
                             match res {
                                 Ok(o) => {
-                                    h.opt(o);
-                                    reps[r].ops.push(Op::D(v));
-                                    reps[r].obs.push(o.map(f64::to_bits));
+                                    if silent {
+                                        out.stats.hit("ev.deliver_silent");
+                                        reps[r].ops.push(Op::U(v));
+                                    } else {
+                                        h.opt(o);
+                                        reps[r].ops.push(Op::D(v));
+                                        reps[r].obs.push(o.map(f64::to_bits));
+                                    }
                                 }
                                 Err(_) => {
                                     panicked = true;
@@ -428,7 +453,7 @@ impl Prop for C17 {
                             match res {
                                 Ok(c) => {
                                     let n_ops = reps[r].ops.len();
-                                    let deliv = reps[r].ops.iter().filter(|o| matches!(o, Op::D(_))).count();
+                                    let deliv = reps[r].ops.iter().filter(|o| matches!(o, Op::D(_) | Op::U(_))).count();
                                     let t = &sc.trees[reps[r].tree];
                                     if deliv < t.window_sum() {
                                         out.stats.hit("reach.clone_during_warmup");
@@ -504,6 +529,7 @@ impl Prop for C17 {
                 let mut class = "diverged_from_isolated_run";
                 for op in &rep.ops {
                     match op {
+                        Op::U(_) => {}
                         Op::D(_) => {
                             if idx == t {
                                 break;
@@ -531,7 +557,7 @@ impl Prop for C17 {
                         rep.forked_at.map(|f| format!(", clone taken after op {}", f)).unwrap_or_default(),
                         t,
                         show(rep.obs[t]),
-                        rep.ops.iter().filter(|o| matches!(o, Op::D(_))).count(),
+                        rep.ops.iter().filter(|o| matches!(o, Op::D(_) | Op::U(_))).count(),
                         show(rf[t])
                     ),
                 ));
@@ -549,7 +575,7 @@ impl Prop for C17 {
     }
 
     fn rule(&self) -> String {
-        "2-4 initial replicas per run: with probability 0.6 replicas 0 and 1 are twins (same spec, same feed); the others are the same tree with other window lengths or unrelated trees, alive at the same time. The seeded scheduler picks a live replica and an event: Deliver (own feed cursor), Observe (last() 1-5 times), Fork (clone; the clone either shares the parent's remaining inputs or gets a divergent feed), Drop, Migrate (subsequent operations of that replica execute on one of two helper OS threads, baton hand-off so exactly one thread runs). After the run every replica's complete observation log is compared bit for bit with a canonical isolated reference computed on a fresh thread: a fresh instance of the same spec fed only that replica's deliveries (a clone's reference replays the parent's history up to the fork) with exactly one last() per delivery; repeated last() results must equal the latest post-delivery value. The check script additionally runs the whole batch in separate processes with 16 and 3 workers and compares batch hashes. distinct = distinct (topologies, event-kind schedule); non-trivial = a fork, drop, migration or repeated last() fired and a delivery was checked after it."
+        "2-4 initial replicas per run: with probability 0.6 replicas 0 and 1 are twins (same spec, same feed); the others are the same tree with other window lengths or unrelated trees, alive at the same time. The seeded scheduler picks a live replica and an event: Deliver (own feed cursor; with a per-run probability of 0/0.3/0.7/0.95 the delivery is silent, i.e. update() without a following last()), Observe (last() 1-5 times), Fork (clone; the clone either shares the parent's remaining inputs or gets a divergent feed), Drop, Migrate (subsequent operations of that replica execute on one of two helper OS threads, baton hand-off so exactly one thread runs). After the run every replica's complete observation log is compared bit for bit with a canonical isolated reference computed on a fresh thread: a fresh instance of the same spec fed only that replica's deliveries (a clone's reference replays the parent's history up to the fork) with exactly one last() after every delivery (also after the ones the replica delivered silently), so a last() whose being called or not called changes later results shows up; repeated last() results must equal the latest post-delivery value. The check script additionally runs the whole batch in separate processes with 16 and 3 workers and compares batch hashes. distinct = distinct (topologies, event-kind schedule); non-trivial = a fork, drop, migration or repeated last() fired and a delivery was checked after it."
             .into()
     }
     fn assumptions(&self) -> Vec<String> {
@@ -560,6 +586,6 @@ impl Prop for C17 {
         ]
     }
     fn must_reach(&self, _t: Tier) -> Vec<&'static str> {
-        vec!["ev.fork", "ev.drop", "ev.migrate", "reach.op_on_helper_thread", "reach.clone_during_warmup", "reach.clone_after_warmup", "reach.delivery_to_clone"]
+        vec!["ev.fork", "ev.drop", "ev.migrate", "ev.deliver_silent", "reach.op_on_helper_thread", "reach.clone_during_warmup", "reach.clone_after_warmup", "reach.delivery_to_clone"]
     }
 }
